@@ -8,6 +8,10 @@ LEMMAS = {
     "L2quick": lambda prog, res: lemmas.lemma_L2(prog, res, methods=["section_data", "segment_data_as_notes"], classes=("ELF64",)),
     "L3": lambda prog, res: lemmas.lemma_L3(prog, res),
     "L5": lambda prog, res: lemmas.lemma_L5(prog, res),
+    "L8": lambda prog, res: lemmas.lemma_L8(prog, res),
+    "L8both": lambda prog, res: lemmas.lemma_L8(prog, res, classes=("ELF32", "ELF64")),
+    "L6": lambda prog, res: lemmas.lemma_L6(prog, res),
+    "L9": lambda prog, res: (lemmas.lemma_L9(prog, res, "ELF64"), lemmas.lemma_L9(prog, res, "ELF32")),
     "L7": lambda prog, res: lemmas.lemma_L7(prog, res),
     "L7both": lambda prog, res: lemmas.lemma_L7(prog, res, classes=("ELF32", "ELF64")),
 }
